@@ -9,6 +9,7 @@ pub mod c12;
 pub mod c13;
 pub mod c14;
 pub mod c16;
+pub mod c20;
 pub mod e1;
 pub mod e2;
 pub mod e3;
@@ -79,6 +80,7 @@ pub fn dispatch(id: &str, tier: Tier, replay: Option<&str>, budget: Duration) ->
         "C15" => e6::run_c15(&mut report),
         "C06" => e4::run_c06(&mut report),
         "C07" => e4::run_c07(&mut report),
+        "C20" => c20::run(&mut report),
         "probe-e5" => { e5::probe(); return 0; }
         _ => {
             eprintln!("unknown property {id}");
